@@ -101,7 +101,7 @@ theorem endsWith_false_of_splitAfter_none (l term : Bytes) (h : splitAfter term 
 
 theorem readUntil_none (t1 : Tr) (term : Bytes) (to : Option Nat) (h : splitAfter term t1.rx = none) :
     (t1.readUntil term to).2 = .error .timeout ∨ (t1.readUntil term to).2 = .ok t1.rx := by
-  simp only [Tr.readUntil, h]; split <;> simp
+  simp only [Tr.readUntil, h]; split <;> split <;> simp
 
 theorem read_prefix (t : Tr) (a b : Bytes) (to : Option Nat) (h : t.rx = a ++ b) :
     t.read a.length to = ({ t with rx := b, log := t.log ++ [.read a.length to] }, .ok a) := by
